@@ -5,6 +5,8 @@ From V Require Import Model.Cleanup Proofs.Cleanup Gen.GenCleanup Harness.H13.
 
 Lemma source_shapes_ok : shape_ok thread_shape = true /\ shape_ok mux_shape = true.
 Proof. split; vm_compute; reflexivity. Qed.
+Lemma source_worker_handback_ordered : worker_job_cleared_before_handback = true.
+Proof. vm_compute; reflexivity. Qed.
 Lemma cfg_ok thread pool : shape_ok (cf_shape (cfg thread pool)) = true.
 Proof. destruct thread; simpl; apply source_shapes_ok. Qed.
 
